@@ -19,6 +19,8 @@
 (*   C20.cache-keys     the keys of the maps; C20.cache-keys-needed: none      *)
 (*                      without records (Cache!KeysNeeded)                     *)
 (*   C20.cache-subs     the subtype table; C20.cache-subs-needed               *)
+(*   C18.cache-purge    what the removal of an interface drops and reports     *)
+(*   C10.cache-known    which cached records a query lists as known answers    *)
 (***************************************************************************)
 EXTENDS Integers, Sequences, FiniteSets, TLC, TLCExt, Json, IOUtils
 CONSTANTS EagerKeys, SplitByFlush, KeepSubs
@@ -131,8 +133,38 @@ Forget ==
   /\ hits' = hits \cup {"C20.cache-forget"}
   /\ UNCHANGED scen
 
+DropIntf ==
+  /\ Ev.k = "dropintf"
+  /\ \E r \in {M!DropIntf(c, Ev.idx)} :
+       /\ c' = r.c
+       /\ viol' = Cap(viol, ContentV(r.c)
+            \cup V("C18.cache-purge", {<<x[1], x[2]>> : x \in Range(Ev.removed)} = r.removed,
+                   <<"removal of an interface reports other instances as fully removed than those whose PTRs were all learned there",
+                     {<<x[1], x[2]>> : x \in Range(Ev.removed)}, r.removed>>)
+            \cup V("C18.cache-purge", Range(Ev.modified) = r.modified,
+                   <<"removal of an interface reports other instances as modified than those that lost an SRV, TXT or address learned there",
+                     Range(Ev.modified), r.modified>>))
+       /\ hits' = hits \cup {"C18.cache-dropintf"} \cup (IF r.removed # {} THEN {"C18.cache-removed"} ELSE {})
+                       \cup (IF r.modified # {} THEN {"C18.cache-modified"} ELSE {})
+  /\ UNCHANGED scen
+DropAddrs ==
+  /\ Ev.k = "dropaddrs"
+  /\ c' = M!DropAddrs(c, Ev.idx, Ev.v4, Ev.v6)
+  /\ viol' = Cap(viol, ContentV(M!DropAddrs(c, Ev.idx, Ev.v4, Ev.v6)))
+  /\ hits' = hits \cup {"C18.cache-dropaddrs"} \cup (IF M!DropAddrs(c, Ev.idx, Ev.v4, Ev.v6) # c THEN {"C18.cache-dropaddrs-hit"} ELSE {})
+  /\ UNCHANGED scen
+Known ==
+  /\ Ev.k = "known"
+  /\ c' = c
+  /\ viol' = Cap(viol, V("C10.cache-known", {<<x[1], x[2]>> : x \in Range(Ev.known)} = {<<x[3], x[5]>> : x \in M!Known(c, Ev.m, Ev.key, Ev.t)},
+                         <<"the known answers of a question are not the shared records in the first half of their life",
+                           {<<x[1], x[2]>> : x \in Range(Ev.known)}, {<<x[3], x[5]>> : x \in M!Known(c, Ev.m, Ev.key, Ev.t)}>>))
+  /\ hits' = hits \cup {"C10.cache-known"} \cup (IF M!Known(c, Ev.m, Ev.key, Ev.t) # {} THEN {"C10.cache-known-some"} ELSE {})
+                  \cup (IF M!Known(c, Ev.m, Ev.key, Ev.t) # M!Under(c, Ev.m, Ev.key) THEN {"C10.cache-known-omitted"} ELSE {})
+  /\ UNCHANGED scen
+
 Reset == /\ Ev.e = "reset" /\ scen' = Ev.scen.id /\ c' = M!Empty /\ UNCHANGED <<viol, hits>>
-Op == Ev.e = "cop" /\ (Recv \/ Evict \/ Verify \/ Refresh \/ Forget)
+Op == Ev.e = "cop" /\ (Recv \/ Evict \/ Verify \/ Refresh \/ Forget \/ DropIntf \/ DropAddrs \/ Known)
 Init == l = 1 /\ scen = 0 /\ c = M!Empty /\ viol = {} /\ hits = {}
 Next == l <= Len(Rec) /\ l' = l + 1 /\ (Reset \/ Op)
 Spec == Init /\ [][Next]_vars
